@@ -1,9 +1,11 @@
 // C08 harness: sparse kernels of the builtin backend at the exact rational type Q.
 // Ops: k_transpose A | k_saad A B sort | k_rmerge A B | k_product nt A B sort | k_sum a A b B sort
 //      k_scale A s | k_sort A | k_diag A invert | k_gersh scaled A
+//      k_crs_copy kind A   (0: range constructor, 1: copy constructor, 2: convert from crs<Q,int,int>, 3: convert from a tuple adapter (square))
 #include "gen.hpp"
 #include <amgcl/backend/builtin.hpp>
 #include <amgcl/detail/spgemm.hpp>
+#include <amgcl/adapter/crs_tuple.hpp>
 #ifdef _OPENMP
 #include <omp.h>
 #endif
@@ -118,6 +120,27 @@ static Result execute(const Toks &t) {
         for (long i = 0; i < A.n; ++i) { Q s(0), d(0); int nd = 0; for (auto j = A.ptr[i]; j < A.ptr[i+1]; ++j) { s += vq::abs(A.val[j]); if (A.col[j] == i) { d = A.val[j]; ++nd; } } if (nd != 1) alldiag = false; if (sc) s = s * vq::abs(Q(1) / d); if (s > ref) ref = s; }
         if ((alldiag || !sc) && g.v != ref.v) r.fail("gershgorin bound != max row sum");
         r.out = (Line() << g).get(); r.nontrivial = A.col.size() > 0; r.tag(sc ? "gersh_scaled" : "gersh"); if (!alldiag) r.tag("missing_diag");
+    } else if (op == "k_crs_copy") {
+        long kind = c.nat(); Mat A = checked(c); c.expect_end();
+        if (kind > 3 || (kind == 3 && A.n != A.m)) throw bad_input("kind");
+        std::shared_ptr<Crs> C;
+        if (kind == 0) C = A.crs();                                             // crs(nrows, ncols, ptr_range, col_range, val_range)
+        else if (kind == 1) { auto Ac = A.crs(); C = std::make_shared<Crs>(*Ac); } // crs(const crs&)
+        else if (kind == 2) {                                                    // crs(const Matrix&) from another index type
+            std::vector<int> p(A.ptr.begin(), A.ptr.end()), cl(A.col.begin(), A.col.end());
+            amgcl::backend::crs<Q, int, int> S((size_t)A.n, (size_t)A.m, p, cl, A.val);
+            C = std::make_shared<Crs>(S);
+        } else {                                                                 // crs(const Matrix&) from the tuple adapter
+            auto T = std::make_tuple((size_t)A.n, amgcl::make_iterator_range(A.ptr.data(), A.ptr.data() + A.ptr.size()),
+                    amgcl::make_iterator_range(A.col.data(), A.col.data() + A.col.size()),
+                    amgcl::make_iterator_range(A.val.data(), A.val.data() + A.val.size()));
+            C = std::make_shared<Crs>(T);
+        }
+        bool ok = C->nrows == (size_t)A.n && C->ncols == (size_t)A.m && C->nnz == A.col.size() && C->own_data;
+        for (long i = 0; ok && i <= A.n; ++i) if (C->ptr[i] != A.ptr[i]) ok = false;
+        for (size_t j = 0; ok && j < A.col.size(); ++j) if (C->col[j] != A.col[j] || C->val[j].v != A.val[j].v) ok = false;
+        if (!ok) r.fail("crs copy/convert constructor is not the identity");
+        r.out = (Line() << ptr_of(*C) << *C).get(); r.nontrivial = A.col.size() > 0; r.tag("crs_copy" + std::to_string(kind)); if (A.n != A.m) r.tag("rect");
     } else r.out = "bad-op";
     return r;
 }
@@ -162,10 +185,18 @@ static void generate(Rng &rng, const Opts &o, std::vector<std::string> &lines) {
         }
         for (int s = 0; s < 3000; ++s) { unsigned long a = rng.next() & 511, b = rng.next() & 511; lines.push_back((Line() << "k_rmerge" << pattern_mat(3, 3, a, 0) << pattern_mat(3, 3, b, 1)).get()); lines.push_back((Line() << "k_sum" << Q(1) << pattern_mat(3, 3, a, 0) << Q(-1) << pattern_mat(3, 3, b, 1) << 1).get()); }
     }
+    // CRS copy / convert constructors (separate loop: leaves the stream of the cases above unchanged)
+    for (long k = 0; k < (o.thorough() ? 400 : 60); ++k) {
+        long kind = rng.range(0, 3), n = rng.range(0, 14), m = (kind == 3 || rng.coin()) ? n : rng.range(0, 14);
+        Mat A = gen_sparse(rng, n, m, (int)rng.range(5, 60)); if (rng.coin()) A = unsort(rng, A, rng.coin(1, 3));
+        lines.push_back((Line() << "k_crs_copy" << kind << A).get());
+    }
     // malformed stream
     lines.push_back("k_transpose 1 2 1 3 1");              // column 3 in a 2-column matrix
     lines.push_back("k_saad 1 2 1 0 1 1 1 1 0 1 0");        // inner dimensions differ
     lines.push_back("k_sum 1 1 1 1 0 1 1 2 2 0 0 0");       // shapes differ: precondition
+    lines.push_back("k_crs_copy 3 1 2 1 0 1");              // tuple adapter is square only
+    lines.push_back("k_crs_copy 4 1 1 1 0 1");              // unknown constructor kind
 }
 
 VH_MAIN(generate, execute)
